@@ -805,6 +805,19 @@ def _grid_eq(ctx, m):
          and any(it in ('%s.column.keys()' % s, '%s.column' % s) for _, it in fors),
          'grids differing in one cell compare equal'),
     ]
+    # rows and cells are compared through _approx_check only: plain `==` on rows/cells is not kind-aware (True == 1 == 1.0,
+    # a Quantity equals its bare number, quantities of different units raise)
+    for cmp_ in [x for x in ast.walk(fn) if isinstance(x, ast.Compare) and len(x.ops) == 1 and isinstance(x.ops[0], (ast.Eq, ast.NotEq))]:
+        sides = [R(norm(cmp_.left)), R(norm(cmp_.comparators[0]))]
+        rowish = [t_ for t_ in sides if t_ in ('ref_row', 'parsed_row') or t_.startswith(('ref_row.get(', 'parsed_row.get(', 'ref_row[', 'parsed_row['))
+                  or '.metadata[' in t_ or ('.column[' in t_ and t_.count('[') >= 2)]
+        if len(rowish) == 2:
+            ctx.violation('C19.D3', '%s::Grid.__eq__' % FG, norm(cmp_),
+                          'grids differing only in one cell, True vs 1 (or 1 vs Quantity(1, "kg")), compare EQUAL, and 1 kg vs 1 m '
+                          'makes == raise TypeError: `%s` compares rows/cells with plain ==, which bypasses the kind-aware '
+                          '_approx_check' % norm(cmp_),
+                          'Grid.__eq__ compares rows or cells with plain == instead of _approx_check', file=FG, line=cmp_.lineno,
+                          engine='E9')
     # skeleton recognisable?
     skeleton_ok = all(isinstance(st, (ast.If, ast.For, ast.Return, ast.Expr)) for st in body_wo_doc(fn))
     for desc, ok, wit in facts:
